@@ -5,3 +5,7 @@ import SigpyVerif.Props.C05
 import SigpyVerif.Props.C03
 import SigpyVerif.Props.C11
 import SigpyVerif.Props.C11Shape
+import SigpyVerif.Props.C19
+import SigpyVerif.Props.C20
+import SigpyVerif.Props.C01
+import SigpyVerif.Props.C04
